@@ -45,6 +45,7 @@ class Spy:
 
             def solve(self, **kwargs):
                 self.solve_calls = getattr(self, 'solve_calls', []) + [dict(kwargs)]
+                self.solve_objectives = getattr(self, 'solve_objectives', []) + [type(self.prob.objective).__name__]
                 return super().solve(**kwargs)
 
             def heuristic(self, weight):
